@@ -79,3 +79,32 @@ Definition expect_return (m : enum_map) (found ret : ty) : result em_outcome :=
   | Crash s => Crash s
   | OutOfFuel => OutOfFuel
   end.
+
+(* Binary operators (Expr::Binary) and compound assignment (`x += v`, quick_assign_op):
+   BinaryOp::get_possible_output_ty = lhs.max(rhs); None or !can_perform(max) pushes
+   BinaryOpMismatch; then replace_weak_tys on both operands (assertion = Crash 2).
+   Two representative operators: `+` (arithmetic class) and `==` (equality class). *)
+Inductive binop : Type := OpAdd | OpEq.
+
+Definition can_perform (op : binop) (t : ty) : bool :=
+  match op with
+  | OpAdd => match absolute_ty t with IInt _ | UInt _ | TFloat _ => true | _ => false end
+  | OpEq => match absolute_ty t with TAny | RawPtr _ | RawSlice | Unknown => false | _ => true end
+  end.
+
+Definition binary_outcome (m : enum_map) (op : binop) (a b : ty) : result em_outcome :=
+  match tmax m a b with
+  | Ok None => Ok Mismatch
+  | Ok (Some c) =>
+      if (weak a c && negb (fit a c)) || (weak b c && negb (fit b c)) then Crash 2
+      else if negb (ty_eqb a Unknown) && negb (ty_eqb b Unknown) && negb (can_perform op c)
+           then Ok Mismatch else Ok Accept
+  | Crash s => Crash s
+  | OutOfFuel => OutOfFuel
+  end.
+
+(* plain assignment `dest = value`: `if dest_ty.is_weak_replaceable_by(&value_ty)
+   { replace_weak_tys(dest, value_ty) } else { expect_match(value_ty, dest_ty) }` *)
+Definition assign_outcome (value dest : ty) : result em_outcome :=
+  if weak dest value then (if fit dest value then Ok Accept else Crash 2)
+  else expect_match false value (Concrete dest).
